@@ -175,8 +175,17 @@ def register(R, tier="quick"):
                                              to_z3(env["result"]) == fn(g, env["docnum"] - z3.Select(a, g))))
         return post
 
+    HASVEC = z3.Function("seg_has_vector", IntS, IntS, z3.BoolSort())
+    VEC = z3.Function("seg_vector", IntS, IntS, IntS)
+    VECAS = z3.Function("seg_vector_as", IntS, IntS, IntS)
+    SubReader.m_has_vector = lambda self, I, d, fieldname: HASVEC(self.idx, to_z3(d))
+    SubReader.m_vector = lambda self, I, d, fieldname, format_=None: VEC(self.idx, to_z3(d))
+    SubReader.m_vector_as = lambda self, I, astype, d, fieldname: VECAS(self.idx, to_z3(d))
     for meth, fn, ret, extra in (("is_deleted", DEL, "bool", {}), ("stored_fields", STORED, "int", {}),
-                                 ("doc_field_length", FLEN, "int", {"fieldname": "f"})):
+                                 ("doc_field_length", FLEN, "int", {"fieldname": "f"}),
+                                 ("has_vector", HASVEC, "bool", {"fieldname": "f"}),
+                                 ("vector", VEC, "int", {"fieldname": "f"}),
+                                 ("vector_as", VECAS, "int", {"fieldname": "f", "astype": "weight"})):
         R.contract(RD + ":MultiReader." + meth, props=["C06"],
                    setup=lambda I, extra=extra: dict({"self": mk_multi(I), "docnum": z3.Int("docnum")}, **extra),
                    requires=[wf_multi, "0 <= docnum < self.base"],
